@@ -70,18 +70,21 @@ func c19r1(c *core.Ctx) {
 	for _, p := range pairs {
 		// fresh: composite literal of the stats type (last one returned)
 		fresh := map[string]string{}
-		core.InspectNoLits(p.fresh.Body, func(n ast.Node) bool {
-			if rs, ok := n.(*ast.ReturnStmt); ok && len(rs.Results) == 1 {
-				if cl, ok := ast.Unparen(rs.Results[0]).(*ast.CompositeLit); ok {
-					for _, e := range cl.Elts {
-						if kv, ok := e.(*ast.KeyValueExpr); ok {
-							fresh[kv.Key.(*ast.Ident).Name] = normStatsExpr(m, kv.Value)
-						}
-					}
+		{
+			// the statistics value the fresh path returns, built as a literal or field by field
+			rt := core.NamedName(p.fresh.Sig.Results().At(0).Type())
+			for _, cn := range constructionsOf(m, p.fresh) {
+				if cn.typ != rt {
+					continue
+				}
+				for k, v := range cn.fields {
+					fresh[k[strings.LastIndexByte(k, '.')+1:]] = normStatsExpr(m, v)
 				}
 			}
-			return true
-		})
+			if len(fresh) == 0 {
+				c.Undecide("C19/R1", p.fresh.Name, "the fresh statistics path builds no value of type "+rt+" that the rule recognises")
+			}
+		}
 		update := map[string]string{}
 		var statsPar *types.Var
 		for i := 0; i < p.update.Sig.Params().Len(); i++ {
